@@ -48,6 +48,8 @@ ASSUMPTIONS = [
     'boundary points decided are axis points on axis great-circle caps (cm = 1, Cartesian input), where 1 - x.p = cm holds '
     'exactly in float64 and the stated "<=" makes them inside',
     'Cartesian points are unit vectors to float64 rounding (|p| = 1 +- 3e-16); the inequality is evaluated on the vectors as given',
+    'Mangle text files carry polygon numbers that are ascending, descending, all equal or non-monotone with repeats; the list '
+    'returned by the reader must follow the file order in every case',
     'Mangle text files are written with shortest-round-trip decimals so that all storage routes hold bit-identical caps; '
     'the .ply format and the blist/bcaps tables carry no use-mask, so these routes are compared on all-caps masks only',
     'window polygons have 1..3 caps (the quantifier of the property); the zero-cap polygon is exercised in memory only',
@@ -282,10 +284,22 @@ def o_use_caps(caps, idx, add, init, allow_doubles, allow_neg):
 # ---------------------------------------------------------------------------------------------
 # writers for the storage formats (fixtures; independent of pydl)
 # ---------------------------------------------------------------------------------------------
-def write_ply(path, specs):
+# polygon-id menus of a Mangle text file: the number after "polygon" is a label (pixel / field number), the list order is
+# the order in the file
+PLY_IDS = {'ply': lambda k: k,                              # 0, 1, 2 (ascending, contiguous)
+           'ply-desc': lambda k: 1000 - 7 * k,              # descending, non-contiguous
+           'ply-same': lambda k: 407,                       # repeated id
+           'ply-mixed': lambda k: [407, 122, 407, 35][k % 4]}   # non-monotone with a repeat
+
+
+def ply_formats_for(specs):
+    return ['ply'] + (['ply-desc', 'ply-same', 'ply-mixed'] if len(specs) >= 2 else ['ply-mixed'])
+
+
+def write_ply(path, specs, ids='ply'):
     lines = ['%d polygons' % len(specs), 'snapped', 'balkanized']
     for k, s in enumerate(specs):
-        lines.append('polygon %d ( %d caps, 1 weight, 0 pixel, 1.0 str):' % (k, len(s['caps'])))
+        lines.append('polygon %d ( %d caps, 1 weight, 0 pixel, 1.0 str):' % (PLY_IDS[ids](k), len(s['caps'])))
         for c in s['caps']:
             lines.append(' ' + ' '.join(repr(float(v)) for v in c))
     with open(path, 'w') as f:
@@ -385,11 +399,12 @@ def write_balkans(d, specs, layout='cum'):
 
 
 FORMATS_MASK = ['mem', 'copy', 'fits-conv', 'fits-raw']     # routes that carry a use-mask
-FORMATS_NOMASK = ['ply']                                    # routes that imply all caps (+ balkans_layouts_for)
+FORMATS_NOMASK = []                                         # routes that imply all caps: ply_formats_for + balkans_layouts_for
 ONECAP_FORMATS = ['fits1-conv', 'fits1-raw']                # MWRFITS one-cap layout (XCAPS 1-D per row)
 READER = {'mem': 'ManglePolygon', 'copy': 'ManglePolygon', 'fits-conv': 'read_fits_polygons',
           'fits-raw': 'read_fits_polygons', 'fits1-conv': 'read_fits_polygons', 'fits1-raw': 'read_fits_polygons',
-          'ply': 'read_mangle_polygons', 'balkans': 'window_read', 'balkans-fill': 'window_read',
+          'ply': 'read_mangle_polygons', 'ply-desc': 'read_mangle_polygons', 'ply-same': 'read_mangle_polygons',
+          'ply-mixed': 'read_mangle_polygons', 'balkans': 'window_read', 'balkans-fill': 'window_read',
           'balkans-rev': 'window_read', 'balkans-rot': 'window_read', 'balkans-shared': 'window_read'}
 
 
@@ -415,9 +430,9 @@ def load_polys(fmt, specs, tmp):
         path = os.path.join(tmp, 'polygons.fits')
         write_fits(path, specs, 'flat' if fmt.startswith('fits1') else 'std')
         return mng.read_fits_polygons(path, convert=fmt.endswith('conv'))
-    if fmt == 'ply':
+    if fmt.startswith('ply'):
         path = os.path.join(tmp, 'polygons.ply')
-        write_ply(path, specs)
+        write_ply(path, specs, fmt)
         return mng.read_mangle_polygons(path)
     if fmt.startswith('balkans'):
         from pydl.photoop.window import window_read
@@ -552,8 +567,27 @@ def _window_call(polys, pts, ncapsarg):
     return np.asarray(flag), np.asarray(idx)
 
 
+def _ply_file_order(fmt, specs, polys):
+    """read_mangle_polygons must return the polygons in file order, whatever their polygon numbers."""
+    try:
+        n = len(polys)
+        if n != len(specs):
+            return [('read_mangle_polygons:polygon-count:%s' % fmt, '%d polygons read, %d written' % (n, len(specs)), 0)]
+        for k, sp in enumerate(specs):
+            a = np.array(sp['caps'], dtype=np.float64)
+            if not (np.array_equal(np.asarray(polys[k].x), a[:, :3]) and np.array_equal(np.asarray(polys[k].cm), a[:, 3])):
+                return [('read_mangle_polygons:list-order-differs-from-file-order:%s' % fmt,
+                         'entry %d of the list (id %s) does not hold the caps of polygon %d of the file; ids in file order %s'
+                         % (k, getattr(polys[k], 'id', '?'), k, [PLY_IDS[fmt](j) for j in range(n)]), 0)]
+    except Exception as e:  # noqa: BLE001
+        return [('read_mangle_polygons:exception:%s:%s' % (type(e).__name__, fmt), repr(e), 0)]
+    return []
+
+
 def _balkans_use_caps(fmt, specs, polys):
     """window_read(balkans=True) must select every cap of every balkan."""
+    if fmt.startswith('ply'):
+        return _ply_file_order(fmt, specs, polys)
     if not fmt.startswith('balkans'):
         return []
     try:
@@ -903,7 +937,7 @@ def run_window(acc, task):
                     if max(len(s['caps']) for s in specs) == 1:
                         fmts += ONECAP_FORMATS
                     if full:
-                        fmts += FORMATS_NOMASK + balkans_layouts_for(specs)
+                        fmts += FORMATS_NOMASK + ply_formats_for(specs) + balkans_layouts_for(specs)
                     _run_window_group(acc, [menu] + ids, full, specs, fmts, tmproot)
     finally:
         shutil.rmtree(tmproot, ignore_errors=True)
